@@ -42,6 +42,7 @@ pub enum Op {
 	ClearPoison(usize),
 	Fmt(usize),
 	FmtFail(usize, u32), // format collection c with the payload of lock `tag` failing in its Debug impl
+	FmtPanic(usize, u32), // ... panicking in its Debug impl
 }
 
 #[derive(Clone, Debug)]
@@ -116,6 +117,7 @@ fn parse_op(t: &[&str]) -> Op {
 		"clear" => Op::ClearPoison(us(t[1])),
 		"fmt" => Op::Fmt(us(t[1])),
 		"fmtfail" => Op::FmtFail(us(t[1]), us(t[2]) as u32),
+		"fmtpanic" => Op::FmtPanic(us(t[1]), us(t[2]) as u32),
 		x => panic!("bad op {x}"),
 	}
 }
